@@ -346,3 +346,23 @@ func (e *ElectrumFacade) BroadcastTransaction(ctx context.Context, rawTx string)
 func (e *ElectrumFacade) GetFee(ctx context.Context, target uint32) (float32, error) { return 0.00001, nil }
 func (e *ElectrumFacade) Ping(ctx context.Context) error                             { return nil }
 func (e *ElectrumFacade) Reboot(ctx context.Context) error                           { return nil }
+
+// LastVersion is the chain version of the most recent answer (0 = nothing answered yet).
+func (f *RpcFacade) LastVersion() int64 {
+	f.mu.Lock()
+	defer f.mu.Unlock()
+	if len(f.Answers) == 0 {
+		return 0
+	}
+	return f.Answers[len(f.Answers)-1].Version
+}
+
+// LastVersion is the chain version of the most recent answer (0 = nothing answered yet).
+func (f *ElectrumFacade) LastVersion() int64 {
+	f.mu.Lock()
+	defer f.mu.Unlock()
+	if len(f.Answers) == 0 {
+		return 0
+	}
+	return f.Answers[len(f.Answers)-1].Version
+}
